@@ -288,6 +288,7 @@ func handMadeFamilyScopes(thorough bool) []Scope {
 		{Name: "F-diamond", GS: GridSpec{Kind: "synth", Deepest: 1, Px: 1, Sub: 4, OffPx: [2]int64{1, 9}, TileWidth: 1}, Spec: lat.Spec{Explicit: diamondFamily(thorough), Valid: true}, IDSets: [][]int{{1}}, Cfgs: keepCfgs},
 		{Name: "F-tower", GS: synthGS(0, 4, [2]int64{2, 3}), Spec: lat.Spec{Explicit: towerFamily(thorough), Valid: true}, IDSets: one, Cfgs: keepCfgs},
 		{Name: "F-touch", GS: GridSpec{Kind: "synth", Deepest: 1, Px: 1, Sub: 4, OffPx: [2]int64{1, 9}, TileWidth: 1}, Spec: lat.Spec{Explicit: touchFamily(thorough), Valid: true}, IDSets: [][]int{{1}}, Cfgs: keepCfgs},
+		{Name: "F-nested", GS: GridSpec{Kind: "synth", Deepest: 1, Px: 1, Sub: 4, OffPx: [2]int64{2, 3}, TileWidth: 1}, Spec: lat.Spec{Explicit: nestedFamily(thorough), Valid: true}, IDSets: [][]int{{1}}, Cfgs: keepCfgs},
 		{Name: "F-snake", GS: synthGS(0, 8, [2]int64{0, 2}), Spec: lat.Spec{Explicit: snakeFamily(thorough), Valid: true}, IDSets: one, Cfgs: keepCfgs},
 	}
 }
@@ -583,4 +584,70 @@ func cellScopes(thorough bool) []Scope {
 		scs = append(scs, Scope{Name: "F-cells:" + l.name, GS: synthGS(0, 4, [2]int64{3, 5}), Spec: lat.Spec{Explicit: cellUnionFamily(l.xs, l.ys, rots, both), Valid: true}, IDSets: [][]int{{0}}, Cfgs: keepCfgs})
 	}
 	return scs
+}
+
+// nestedFamily: three levels of nesting inside one valid polygon.  A square shell; a ring-shaped
+// hole (a moat) whose ring is interrupted by an opening thinner than a pixel, so that after
+// snapping the opening closes and the bay enclosed by the moat becomes an island (a new outer ring
+// inside the moat's outline); and a second hole inside that island.  The second hole lies inside two
+// outer rings (the shell and the island) and must end up in the island, whatever the areas of the two
+// candidates (frame thinner or thicker than the island), the order of the holes and the start vertices.
+// Quarter pixels; the figure is 20 px wide and is turned in all four directions.
+func nestedFamily(thorough bool) [][][]ref.P {
+	const L = int64(80)
+	frames := []int64{6, 12}
+	opens := []int64{1, 2}
+	moatRots := []int{0, 3, 6, 9}
+	if thorough {
+		frames = []int64{4, 6, 9, 12, 16}
+		moatRots = allRot(12)
+	}
+	const w = int64(8)      // moat width: 2 px
+	const inset = int64(12) // hole 2 is 3 px inside the island
+	var out [][][]ref.P
+	turn := func(r []ref.P) []ref.P {
+		o := make([]ref.P, len(r))
+		for i, p := range r {
+			o[i] = ref.P{L - p[1], p[0]}
+		}
+		return o
+	}
+	shift := func(r []ref.P) []ref.P { // off the pixel corners
+		o := make([]ref.P, len(r))
+		for i, p := range r {
+			o[i] = ref.P{p[0] + 1, p[1] + 1}
+		}
+		return o
+	}
+	rev := func(r []ref.P) []ref.P {
+		o := make([]ref.P, len(r))
+		for i := range r {
+			o[len(r)-1-i] = r[i]
+		}
+		return o
+	}
+	for _, f := range frames {
+		a, b := f, L-f
+		c, d := f+w, L-f-w
+		for _, o := range opens {
+			for _, g := range []int64{c + 2, L/2 - 2} {
+				shell := rect(0, 0, L, L, false)
+				moat := rev([]ref.P{{a, a}, {b, a}, {b, b}, {g + o, b}, {g + o, d}, {d, d}, {d, c}, {c, c}, {c, d}, {g, d}, {g, b}, {a, b}})
+				hole2 := rect(c+inset, c+inset, d-inset, d-inset, true)
+				for t := 0; t < 4; t++ {
+					for _, mr := range rotations(moat, moatRots) {
+						for _, hr := range rotations(hole2, []int{0, 2}) {
+							s, m, h := shift(shell), shift(mr), shift(hr)
+							if !ref.HoleOK(s, nil, m) || !ref.HoleOK(s, [][]ref.P{m}, h) {
+								continue
+							}
+							out = append(out, [][]ref.P{s, m, h}, [][]ref.P{s, h, m})
+						}
+					}
+					shell, moat, hole2 = turn(shell), turn(moat), turn(hole2)
+				}
+			}
+		}
+	}
+	return out
 }
